@@ -357,6 +357,17 @@ theorem gen_vec_extend_from_slice (c : Cfg) (hc : CfgOK c) (src : List Elem) (v 
   rcases extend c v (It.cloned src) w with ⟨v', w', o⟩
   cases o <;> rfl
 
+/-- `Extend<&'a T>` (for `T: Copy`) is `extend(iter.cloned())`: the same function as `extend_from_slice` of the referenced
+elements -/
+theorem gen_vec_extend_refs (c : Cfg) (hc : CfgOK c) (src : List Elem) (v : VS) (xs : List Elem) (w : W) (hr : RepB c v xs) :
+    toModel (Gen.Fn.vec_extend_refs c src (v, w)) = extend c v (.cloned src) w := by
+  unfold Gen.Fn.vec_extend_refs
+  rw [gen_vec_extend_raw c hc _ v xs w hr]
+  rcases extend c v (It.cloned src) w with ⟨v', w', o⟩
+  cases o <;> rfl
+
+#print axioms gen_vec_extend_refs
+
 /-- `io::Write::write(buf)` for `Vec<u8>`: `extend_from_slice_copy(buf)`, then `Ok(buf.len())` — the model's `ioWrite` -/
 theorem gen_vec_io_write (c : Cfg) (src : List Elem) (v : VS) (w : W) (hc : CfgOK c) (hb : BufOK c v) (hl : v.len ≤ capOf c v) :
     (match Gen.Fn.vec_io_write c (src.map some) (v, w) with
